@@ -1,5 +1,5 @@
 """Property -> rules wiring.  Each function returns kwargs for Ctx.finish()."""
-from . import control, history, descent, warm, degenerate, feasible
+from . import control, history, descent, warm, degenerate, feasible, plumb, matrix, storage
 
 TB = ["CPython ast", "role seeds: positional parameters of BaseSolver._solve and the "
       "fixed slot-method names of the datafit/penalty interface"]
@@ -87,6 +87,86 @@ def c19(A, ctx, tier):
                 "bounded", trusted_base=TB)
 
 
+def c11(A, ctx, tier):
+    plumb.r_plumb(A, ctx, dict(floor=150))
+    plumb.r_who(A, ctx, dict(floor=13))
+    warm.r_none_deref(A, ctx, dict(floor=1))
+    ctx.assume("stationarity of the fitted coefficients is C01's business; the "
+               "docstring-formula <-> class correspondence is not decided")
+    return dict(explanation="constructor-argument plumbing of the 12 estimators: every "
+                "documented argument is read on the fit and path paths, binds the formal of "
+                "the same meaning, and is forwarded to every constructor that has it; all "
+                "fits go through _glm_fit / solver.solve", trusted_base=TB)
+
+
+def c12(A, ctx, tier):
+    plumb.r_ovr(A, ctx, {})
+    plumb.r_labelkind(A, ctx, {})
+    ctx.assume("probability normalisation/monotonicity (sklearn mix-ins, softmax) are "
+               "runtime behaviour and not decided")
+    return dict(explanation="one-vs-rest assembly gathers every fitted attribute from the "
+                "per-class binary fits; encoded class indices are never compared with raw "
+                "labels", trusted_base=TB)
+
+
+def c18(A, ctx, tier):
+    plumb.r_pure(A, ctx, dict(floor=25))
+    plumb.r_state(A, ctx, dict(floor=8))
+    warm.r_cache(A, ctx, {})
+    ctx.note("spectral_norm draws its start vector from Numba's process-wide generator "
+             "(np.random.randn inside an njit function): sparse global Lipschitz constants "
+             "depend on how many draws happened before; informational (the power method's "
+             "limit does not depend on the start vector)")
+    return dict(explanation="purity: effect summaries show no in-place mutation of X, y, "
+                "CSC arrays, group structure or constructor arrays anywhere reachable from "
+                "fit/path/solve; estimators never rebind constructor attributes, read "
+                "fitted state only under warm_start; no process-wide mutable state except "
+                "the class-factory cache", trusted_base=TB)
+
+
+def c10(A, ctx, tier):
+    matrix.r_csc(A, ctx, dict(floor=40))
+    storage.r_dispatch(A, ctx, dict(floor=15))
+    storage.r_convert(A, ctx, dict(floor=6))
+    storage.r_solverstate(A, ctx, dict(floor=25))
+    ctx.assume("equality 'up to solver tolerance' of converged results is numerical and not decided")
+    return dict(explanation="storage independence (structural part): CSC triples are "
+                "passed in (data, indptr, indices) order at every call site; every sparse/"
+                "dense dispatch calls a sibling pair with corresponding arguments; inputs are "
+                "converted to CSC/Fortran order before any kernel; solver objects carry no "
+                "state between solves", trusted_base=TB)
+
+
+def c13(A, ctx, tier):
+    matrix.r_spec(A, ctx, dict(floor=150))
+    matrix.r_matrix(A, ctx, dict(floor=12000), tier=tier)
+    history.r_unbound(A, ctx, dict(floor=20))
+    plumb.r_who(A, ctx, dict(floor=13))
+    ctx.assume("accepted cells returning finite certified values is numerical (C01/C19)")
+    return dict(explanation="every cell of the solver x datafit x penalty x storage x knob "
+                "matrix is classified statically: refused by validation, or accepted with "
+                "every slot call / attribute read of compiled code resolving to a real member "
+                "of matching arity and every attribute in the jitclass spec; no unbound local "
+                "can reach a use", trusted_base=TB, exhaustive=True)
+
+
+def c16(A, ctx, tier):
+    def where(A_):
+        out = []
+        for f in A_.prog.all_functions():
+            if f.name == "alpha_max" or f.name.startswith("_alpha_max"):
+                out.append(f)
+        return out
+    degenerate.r_div(A, ctx, dict(floor=3, py_level_strict=True), where=where, rule="R-DIV-ALPHAMAX")
+    control.r_cert(A, ctx, dict(exempt=EX01, floor=6), rule="R-CERT-INTERCEPT", clauses=("intercept",))
+    ctx.assume("that a fit slightly below alpha_max is non-zero is numerical and not decided")
+    return dict(explanation="critical strength: alpha_max helpers exclude zero weights "
+                "before dividing; a solver that fits an intercept cannot exit at w = 0 "
+                "before the intercept is optimal", trusted_base=TB)
+
+
 PROPS = {
+    "C10": c10, "C13": c13, "C16": c16,
+    "C11": c11, "C12": c12, "C18": c18,
     "C01": c01, "C03": c03, "C04": c04, "C05": c05, "C17": c17, "C19": c19,
 }
